@@ -105,8 +105,27 @@ def run(ctx):
         # conditional Option guard: Some edge must not reach the mutation; the call must exist
         calls = [bb for bb, t in kb.calls() if (t.resolved or t.callee) == GUARD_OPT]
         if not calls:
-            ctx.ob('GUARDS', KERNEL + '|find_cell_containing_simplex', cfg, False,
-                   'the inserted-simplex-already-exists guard is no longer called', site=site)
+            # the guard may have been hoisted: then *every* caller of the kernel must pass its None edge before the call
+            callers = sorted(prog.callers.get(KERNEL, ()))
+            lacking = []
+            for cq in callers:
+                cb = prog.bodies.get(cq)
+                if cb is None:
+                    continue
+                kcalls = [bb for bb, t in cb.calls() if (t.resolved or t.callee) == KERNEL]
+                gcalls = [bb for bb, t in cb.calls() if (t.resolved or t.callee) == GUARD_OPT]
+                none_e = set()
+                for bb in gcalls:
+                    none_e |= flow.call_flow(cb, bb).err_edges
+                reach_c = flow.reach_edges_cp(cb, [0], avoid_edges=none_e)
+                if not gcalls or any(k in reach_c for k in kcalls):
+                    lacking.append(cq.rsplit('::', 1)[-1])
+            ok = bool(callers) and not lacking
+            ctx.ob('GUARDS', KERNEL + '|find_cell_containing_simplex', cfg, ok,
+                   'the inserted-simplex-already-exists guard is not in the kernel; %s' % (
+                       'every caller passes it before the kernel call' if ok else
+                       'caller(s) %s reach the kernel without it: those moves can create a simplex that already exists' % lacking),
+                   site=site)
         else:
             some_edges = set()
             none_edges = set()
